@@ -4,6 +4,7 @@
 #define bug util_c_bug
 #include "util.c"
 #undef bug
+extern void bug(String fmt, ...);	/* util.h was read under the rename above; buffer.c's bufMust() calls bug() */
 #include "xfloat.c"
 #include "buffer.c"
 #include "vharness.h"
